@@ -17,6 +17,8 @@ REQUIRED_REACH = ["midi.midi_file_out.write_Note", "midi.midi_file_out.write_Not
                   "midi.midi_track.MidiTrack.time_signature_event", "midi.midi_track.MidiTrack.int_to_varbyte",
                   "midi.midi_track.MidiTrack.set_tempo_event", "midi.midi_track.MidiTrack.track_name_event"]
 REQUIRED_CLAUSES = ["smf:", "notes:", "meta:", "instrument:", "vlq:"]
+# (placement clauses are deliberately weak: the statement fixes values and the first note's channel, and that the
+#  instrument change belongs to the first note; it does not fix the tick of tempo / signature / instrument events)
 RULE = ("random and systematic compositions / tracks / bars / containers / notes (1-4 tracks, all 30 keys, 8 meters, values "
         "with integral and with rounding tick lengths, chords <= 5, rests in every position, channels 0-15, velocities "
         "1-127 and a velocity-0 class, MIDI instruments, repeat 0-2) written by the five write_* functions and decoded "
@@ -108,8 +110,10 @@ def check_track(ctx, tr, tl, w, bpm, name=None, instrument=None, metas=True, fir
     check_alternation(ctx, tr, w)
     if first_tempo:
         tempo = [e for e in tr if e["kind"] == "meta" and e["type"] == 0x51]
-        okt = bool(tempo) and tempo[0]["tick"] == 0 and len(tempo[0]["data"]) == 3 and int.from_bytes(tempo[0]["data"], "big") == 60000000 // bpm
-        ctx.check("meta: tempo = 60000000 div bpm as three bytes at tick 0", okt, dict(w, bpm=bpm), 60000000 // bpm,
+        ons = [e["tick"] for e in tr if e["kind"] == "on"]
+        okt = bool(tempo) and tempo[0]["tick"] <= (ons[0] if ons else tempo[0]["tick"]) and len(tempo[0]["data"]) == 3 and \
+            int.from_bytes(tempo[0]["data"], "big") == 60000000 // bpm
+        ctx.check("meta: tempo = 60000000 div bpm as three bytes, not after the first note", okt, dict(w, bpm=bpm), 60000000 // bpm,
                   [(e["tick"], e["data"].hex()) for e in tempo][:3], mechanism="tempo")
     if name is not None:
         nm = [e for e in tr if e["kind"] == "meta" and e["type"] == 0x03]
@@ -144,11 +148,15 @@ def check_track(ctx, tr, tl, w, bpm, name=None, instrument=None, metas=True, fir
         pc = [e for e in tr if e["kind"] == "pc"]
         firsts = [f for f in tl["first_notes"] if f is not None]
         if instrument.get("nr") is not None:
-            okb = len(cc) == len(firsts) and all(e["ch"] == f[1] and e["d1"] == 0 and e["tick"] == f[0] for e, f in zip(cc, firsts))
-            okp = len(pc) == len(firsts) and all(e["ch"] == f[1] and e["d1"] == instrument["nr"] and e["tick"] == f[0] for e, f in zip(pc, firsts))
-            ctx.check("instrument: a bank select (controller 0) on the first note's channel at the first note's tick", okb, w,
+            # (the first repetition's announcement may come anywhere up to the first note; later ones belong to their repetition)
+            def placed(e, k, f):
+                lo = 0 if k == 0 else tl["bars"][k * (len(tl["bars"]) // max(1, len(tl["first_notes"]))) - 1][1] if tl["bars"] else 0
+                return lo <= e["tick"] <= f[0]
+            okb = len(cc) == len(firsts) and all(e["ch"] == f[1] and e["d1"] == 0 and placed(e, k, f) for k, (e, f) in enumerate(zip(cc, firsts)))
+            okp = len(pc) == len(firsts) and all(e["ch"] == f[1] and e["d1"] == instrument["nr"] and placed(e, k, f) for k, (e, f) in enumerate(zip(pc, firsts)))
+            ctx.check("instrument: a bank select (controller 0) on the first note's channel, not after the first note", okb, w,
                       [("cc0", f[1], f[0]) for f in firsts], [(e["ch"], e["d1"], e["d2"], e["tick"]) for e in cc][:4], mechanism="bank-select")
-            ctx.check("instrument: a program change with the instrument number on the first note's channel at the first note's tick",
+            ctx.check("instrument: a program change with the instrument number on the first note's channel, not after the first note",
                       okp, w, [(f[1], instrument["nr"], f[0]) for f in firsts], [(e["ch"], e["d1"], e["tick"]) for e in pc][:4],
                       mechanism="program-change")
             # both come before the first note-on in stream order
